@@ -2,6 +2,7 @@
 C09 — Insert, Delete and Overtype edit exactly the addressed clusters.
 -/
 import RosedVerif.Model.InstAFacts
+import RosedVerif.Model.BridgeEdit
 namespace RosedVerif.Props
 open RosedVerif
 
@@ -37,5 +38,40 @@ example : Spec.delete cxA [0x61, 0x62, 0x63, 0x64, 0x65, 0x66] (-2) 1 = [0x61, 0
   decide +kernel
 example : Spec.overtype cxA [0x61, 0x62, 0x63, 0x64, 0x65, 0x66] (-3) [0x77, 0x78, 0x79, 0x7a] =
     [0x61, 0x62, 0x63, 0x77, 0x78, 0x79, 0x7a] := by decide +kernel
+
+/-- on code points over a stable vocabulary Insert has NO junction effect: the clusters of the result are clusters[0:p] ++ new ++ clusters[p:] (so the hypothesis of `C09_roundtrip` holds) -/
+theorem C09_insert_code_points {V : List (List Int)} (hV : VocabStable V = true)
+    (toks ins : List (List Int))
+    (ht : ∀ t ∈ toks, t ∈ V)
+    (hi : ∀ t ∈ ins, t ∈ V)
+    (p : Int) :
+    clusters cxA (Spec.insert cxA toks.flatten p ins.flatten) =
+      toks.take (Spec.posNat cxA toks.flatten p) ++ ins ++
+        toks.drop (Spec.posNat cxA toks.flatten p) :=
+  insert_clusters_stable hV toks ins ht hi p
+
+/-- **deleting what was just inserted restores the text**, for the model on code points with the real segmentation, any editor (root or sub-editor) whose text and the inserted text are over a stable vocabulary, every integer position -/
+theorem C09_roundtrip_code_points {V : List (List Int)} (hV : VocabStable V = true)
+    (ed : Editor Int)
+    (toks ins : List (List Int))
+    (hed : ed.text = toks.flatten)
+    (ht : ∀ t ∈ toks, t ∈ V)
+    (hi : ∀ t ∈ ins, t ∈ V)
+    (p : Int) :
+    (ed.insert cxA p ins.flatten >>= fun e =>
+        e.delete cxA (Spec.posNat cxA toks.flatten p : Nat)
+          ((Spec.posNat cxA toks.flatten p + ins.length : Nat) : Int)) = .ok ed :=
+  editor_delete_insert_stable_gen hV ed toks ins hed ht hi p
+
+/-- Overtype on code points over a stable vocabulary: the clusters of the result are clusters[0:p] ++ new ++ clusters[min(p+len(new), n):] -/
+theorem C09_overtype_code_points {V : List (List Int)} (hV : VocabStable V = true)
+    (toks ins : List (List Int))
+    (ht : ∀ t ∈ toks, t ∈ V)
+    (hi : ∀ t ∈ ins, t ∈ V)
+    (p : Int) :
+    clusters cxA (Spec.overtype cxA toks.flatten p ins.flatten) =
+      toks.take (Spec.posNat cxA toks.flatten p) ++ ins ++
+        toks.drop (min (Spec.posNat cxA toks.flatten p + ins.length) toks.length) :=
+  overtype_clusters_stable hV toks ins ht hi p
 
 end RosedVerif.Props
